@@ -9,6 +9,7 @@ and then use trimesh operations on them at any point.
 """
 
 import abc
+import copy
 
 import numpy as np
 
@@ -29,9 +30,14 @@ class Primitive(Trimesh):
     Mesh is generated lazily when vertices or faces are requested.
     """
 
-    # ignore superclass copy directives
-    __copy__ = None
-    __deepcopy__ = None
+    # ignore superclass copy directives which pass arguments
+    # that primitives don't accept: a default shallow copy
+    # would share the parameters with the original
+    def __copy__(self, *args):
+        return self.copy()
+
+    def __deepcopy__(self, *args):
+        return self.copy()
 
     def __init__(self):
         # run the Trimesh constructor with no arguments
@@ -135,6 +141,11 @@ class Primitive(Trimesh):
         kwargs.update(self.to_dict())
         # remove the type indicator, i.e. `Cylinder`
         kwargs.pop("kind")
+        # `to_dict` follows the export schema so include any other
+        # attribute of the primitive like `sections` or `subdivisions`
+        for key in self.primitive._defaults:
+            if key not in kwargs:
+                kwargs[key] = getattr(self.primitive, key)
         # create a new object with kwargs
         primitive_copy = type(self)(**kwargs)
 
@@ -143,11 +154,11 @@ class Primitive(Trimesh):
             primitive_copy.visual = self.visual.copy()
 
         # copy metadata
-        primitive_copy.metadata = self.metadata.copy()
+        primitive_copy.metadata = copy.deepcopy(self.metadata)
 
         for k, v in self._data.data.items():
             if k not in primitive_copy._data:
-                primitive_copy._data[k] = v
+                primitive_copy._data[k] = copy.deepcopy(v)
 
         return primitive_copy
 
